@@ -389,6 +389,12 @@ from . import vocab
 
 from . import inventory
 
+
+def _c18_window(W, ob):
+    from . import c18 as _m
+    return _m.window_prunes(W, ob)
+
+
 OBLIGATIONS = [
     ('C12.O1', 'typestate', 'the transition relation extracted from all stores to UdpProtocol.state with their guards is the '
      'reviewed one; remote_magic is stored only on the ->Running edge.', o1),
@@ -406,6 +412,7 @@ OBLIGATIONS = [
      'loop (once per endpoint event, not once per player handle of the address); poll/handle_message emit events only while Running.', o7),
     ('C12.O9', 'every accepted message is a sign of life', 'in handle_message the one store to last_recv_time lies on every path from entry to the dispatch of the message (all 8 kinds, every protocol state incl. the handshake): the interruption / disconnect timers measure silence since the last accepted packet.', c07.liveness_refresh),
     ('C12.O10', 'interruption timers and the announced remaining time (= C07.O1)', 'NetworkInterrupted / Disconnected are raised by the two timer guards and NetworkInterrupted carries exactly disconnect_timeout - disconnect_notify_start (floored at zero), in milliseconds; see C07.O1', c07.o1),
+    ('C12.O11', 'history maps are pruned by a sliding window (= C18.O11)', 'see C18.O11: a clamped threshold evicts the blank reference frame a first packet decodes against, a threshold merged with the ack never moves on a receive-only endpoint, a `!=` keeps all but one checksum', _c18_window),
     ('C12.H', 'helpers the rules above rely on', 'the bodies of the helpers named by this property\'s rules compute what the rules assume (protocol_state_tests); see rules/helpers.py', helpers.bundle('protocol_state_tests')),
     ('C12.W', 'configuration wiring', 'at every call site that passes a field read `x.B` for a parameter `A` the callee has no same-typed parameter `B`; in every struct literal no parameter `B` is stored in field `A` while a same-typed parameter `A` / field `B` exists (builder -> constructor -> endpoint fields: timeouts, window, fps are not crossed); see rules/wiring.py', wiring.rule),
     ('C12.I', 'initial state', 'every constructor gives the fields this property\'s rules interpret (NULL_FRAME = none / nothing yet, 0 = first frame, latches open, typestate start) the value listed in tables/initial_state.json; every field compared with NULL_FRAME anywhere is listed; see rules/initial.py', initial.rule_for('C12')),
